@@ -29,7 +29,7 @@ class _Sub:
                'concrete: every character maps to the glyph of the FIRST font that has it; a later font\'s different glyph for the same character is '
                'recorded as a duplicate of the first (except default-ignorables and U+25CC, the documented policy)',
         shims=['dict keyed by symbolic code points: collide mode (all code-point keys symbolic)'],
-        quick=[dict(shape='1+1'), dict(shape='2+1'), dict(shape='1+1+1')], thorough=[dict(shape=s) for s in ('1+1', '2+1', '1+2', '2+2', '1+1+1', 'both')],
+        quick=[dict(shape='1+1'), dict(shape='2+1'), dict(shape='1+1+1'), dict(shape='both')], thorough=[dict(shape=s) for s in ('1+1', '2+1', '1+2', '2+2', '1+1+1', 'both')],
         collide=True, max_paths=200000)
 def cmap_first_font_wins(shape):
     if shape == 'both':
@@ -363,3 +363,48 @@ def cff_merge_keeps_advance_widths(kinds):
         gotw, gotarg = _spec_width(list(top.CharStrings[n].program), d0, n0)
         conds.append(gotw is not None and conj([eq(gotw, w), eq(gotarg, arg)]))
     ob('first-font-untouched', conj(conds))
+
+
+# ------------------------------------------------------------------------------------------------ feature index <-> reference mapping
+@kernel('C18', funcs=['merge/layout.py:mapFeatures'],
+        bounds='a Script with a default language system and one more language system, each with a feature index and a required-feature index, all SYMBOLIC in '
+               '[0, 3] (the required index may also be 0xFFFF = none): after the index -> reference mapping that layoutPreMerge applies before fonts are merged, every '
+               'feature index - the required one included, index 0 included - has been replaced by the feature object it pointed to, and "no required feature" stays '
+               '0xFFFF; the index map is given as a list (the real one is a dict with the same integer keys)',
+        shims=['list indexed by a symbolic int forks over the index values'], quick=[dict(req='index'), dict(req='none')], thorough=[dict(req='index'), dict(req='none'), dict(req='any')])
+def langsys_indices_become_references(req):
+    feats = [Rec(tag='f%d' % i) for i in range(4)]
+
+    def mk(tag):
+        ls = ot.LangSys() if tag != 'dflt' else ot.DefaultLangSys()
+        idx = [V.int('%s_i%d' % (tag, i), 0, 3) for i in range(1)]
+        r = V.int('%s_req' % tag, 0, 0xFFFF)
+        if req == 'index':
+            assume(le(r, 3))
+        elif req == 'none':
+            assume(eq(r, 0xFFFF))
+        else:
+            assume(disj([le(r, 3), eq(r, 0xFFFF)]))
+        ls.FeatureIndex = list(idx)
+        ls.FeatureCount = 1
+        ls.ReqFeatureIndex = r
+        return ls, idx, r
+    d, di, dr = mk('dflt')
+    l, li, lr = mk('ls')
+    sc = ot.Script()
+    sc.DefaultLangSys = d
+    rec = ot.LangSysRecord()
+    rec.LangSysTag = 'TRK '
+    rec.LangSys = l
+    sc.LangSysRecord = [rec]
+    sc.LangSysCount = 1
+    sc.mapFeatures(list(feats))
+    conds = []
+    for ls, idx, r in ((d, di, dr), (l, li, lr)):
+        for got, i in zip(ls.FeatureIndex, idx):
+            conds.append(any(got is f and bool(eq(i, k)) for k, f in enumerate(feats)))
+        if bool(eq(r, 0xFFFF)):
+            conds.append(not isinstance(ls.ReqFeatureIndex, Rec) and bool(eq(ls.ReqFeatureIndex, 0xFFFF)))
+        else:
+            conds.append(any(ls.ReqFeatureIndex is f and bool(eq(r, k)) for k, f in enumerate(feats)))
+    ob('every-index-replaced-by-its-feature', all(conds))
